@@ -57,7 +57,7 @@ type Policy struct {
 
 // LayoutFeatures - names of all variation points
 var LayoutFeatures = []string{"quote-style", "cmp-word", "assign-word", "member-de", "let-word", "prop-word", "pre-line", "inner-break",
-	"cont-indent", "comment-indent", "optional-comma", "extra-space", "opt-space", "ascii-twin", "backtick-id", "trail-comment", "final-eol", "raw-linebreak", "inner-blank", "blank-spaces", "stmt-sep"}
+	"cont-indent", "comment-indent", "optional-comma", "extra-space", "opt-space", "ascii-twin", "backtick-id", "trail-comment", "final-eol", "raw-linebreak", "inner-blank", "blank-spaces", "stmt-sep", "trail-space"}
 
 func (p *Policy) pick(n int, what string) int {
 	if p == nil || !p.Rich || n <= 1 {
@@ -788,6 +788,8 @@ func Layout(lines []Line, pol *Policy) (string, LineMap) {
 				b.WriteString(" 注：行尾说明")
 			}
 		}
+		// white space at the end of a line (after a statement or after its trailing comment)
+		b.WriteString([]string{"", "", "", " ", "   ", "\t", " \t"}[pol.pick(7, "trail-space")])
 		if li < len(lines)-1 || pol.pick(2, "final-eol") == 1 {
 			b.WriteString(eol)
 		}
